@@ -15,7 +15,7 @@ ALLOWED_AXIOMS = {
     "Eqdep.Eq_rect_eq.eq_rect_eq", "JMeq_eq", "JMeq.JMeq_eq",
     "proof_irrelevance", "ProofIrrelevance.proof_irrelevance", "Classical_Prop.classic",
 }
-FORBIDDEN = re.compile(r"\b(Admitted|admit|Axiom|Axioms|Parameter|Parameters|Conjecture|Conjectures|Admit Obligations|bypass_check)\b|Unset\s+Guard|Unset\s+Positivity|Unset\s+Universe|type-in-type|impredicative-set|native_compute")
+FORBIDDEN = re.compile(r"\b(Admitted|admit|Axiom|Axioms|Parameter|Parameters|Conjecture|Conjectures|Admit Obligations|bypass_check)\b|Unset\s+Guard|Unset\s+Positivity|Unset\s+Universe|type-in-type|impredicative-set|native_compute|Extract\s+(Constant|Inductive|Inlined)|Extraction\s+(Blacklist|Inline|Implicit)")
 
 class CheckError(Exception):
     """the machinery itself failed (build, infrastructure); not a property violation"""
